@@ -12,14 +12,22 @@ xknx/core/value_reader.py and xknx/remote_value/remote_value.py it drives.
                upd i st         a GroupValueWrite/Response for value `i` is processed; `st` = it was addressed to
                                 the state address (then a pending ValueReader of `i` takes it as its answer)
                adv t            virtual time is now `t` µs
+               qb / qi          the outgoing telegram queue became busy / has drained (`outgoing_queue.join()` of
+                                a tracker holding a read slot returns only then)
       outputs  read i           a GroupValueRead for the state address of `i` is queued
                done i           a read task of `i` (RemoteValue.read_state(wait_for_result=True)) finished
+               sa / sr          a read slot (the updater's semaphore) was acquired / released
 Per tracker: kind (none = the value does not register: no state address / sync_state off), interval,
 `reg`, phase ∈ off | want initial | reading initial | sleeping deadline | done.  In flight reads are kept
 apart from the trackers (the read is shielded from the tracker's cancellation): (value, timeout deadline,
 answered, owner = the tracker task still awaits it).  The read slot (semaphore, `parallelReads`) is held
 until the read itself finishes (behaviour after `fix: StateUpdater keeps its read slot …`).
 
+Slot accounting: `held` slots = reads in flight + trackers that acquired a slot and wait for the outgoing queue
+to drain; *which* tracker holds a waiting slot is not observable and not modelled — at rest (when the clock
+advances) the number of waiting slots must not exceed the number of trackers that want to read, must be 0 when
+the queue is idle, and no slot may stay free while a tracker wants to read (a slot leaked by a cancelled
+tracker is rejected there).
 Orders left open: which of several waiting trackers reads first; the order of `read`/`done`/`upd`
 observations inside one virtual instant.  Strict (urgency): the clock may only advance when no read is due
 (a tracker wanting to read while a slot is free), no answered read is still unfinished, and no timer
@@ -120,10 +128,13 @@ structure State where
   started : Bool
   trs : Nat → Tr
   inflight : List Fl
+  held : Nat                -- read slots acquired (semaphore: parallelReads - value)
+  qbusy : Bool              -- outgoing_queue has unfinished telegrams
+  lastIdle : Nat            -- last time the outgoing queue was seen idle
 
 inductive Obs where
   | begin | stop | conn (c : Nat) | reg (i : Nat) | unreg (i : Nat) | upd (i : Nat) (st : Bool) | adv (t : Nat)
-  | read (i : Nat) | done (i : Nat)
+  | read (i : Nat) | done (i : Nat) | sa | sr | qb | qi
   deriving Repr, DecidableEq
 
 def disown (i : Nat) (l : List Fl) : List Fl := l.map fun e => if e.i = i then { e with owner := false } else e
@@ -154,6 +165,15 @@ def dueBefore (s : State) (i : Nat) (t : Nat) : Bool :=
     | .want _ => true
     | .sleeping d => decide (d < t)
     | _ => false)
+
+/-- tracker `i` wants to read now -/
+def dueNow (s : State) (i : Nat) : Bool :=
+  active s i && (match (s.trs i).phase with
+    | .want _ => true
+    | .sleeping d => decide (d ≤ s.now)
+    | _ => false)
+
+def dueCount (s : State) : Nat := ((List.range s.n).filter (dueNow s)).length
 
 /-- first in-flight read of `i` that can finish now -/
 def finishable (now i : Nat) (e : Fl) : Bool := e.i == i && (e.answered || decide (e.deadline ≤ now))
@@ -194,12 +214,18 @@ def step? (s : State) : Obs → Option State
   | .adv t =>
     if s.now < t
         ∧ s.inflight.all (fun e => !e.answered && decide (t ≤ e.deadline))
-        ∧ (s.inflight.length < parallelReads → (List.range s.n).all (fun i => !dueBefore s i t)) then
-      some { s with now := t }
+        -- slots: every waiting slot belongs to a tracker that wants to read; no free slot while one wants to
+        ∧ s.held - s.inflight.length ≤ dueCount s
+        ∧ (s.held < parallelReads → dueCount s ≤ s.held - s.inflight.length)
+        -- idle outgoing queue: nobody waits for it, and every due read has been issued
+        ∧ (s.qbusy = false → s.held = s.inflight.length
+            ∧ (s.inflight.length < parallelReads → (List.range s.n).all (fun i => !dueBefore s i t))) then
+      some { s with now := t, lastIdle := if s.qbusy then s.lastIdle else t }
     else none
   | .read i =>
     let t := s.trs i
-    if i < s.n ∧ active s i ∧ s.inflight.length < parallelReads then
+    if i < s.n ∧ active s i ∧ s.inflight.length < parallelReads ∧ s.inflight.length < s.held
+        ∧ (s.qbusy = false ∨ s.lastIdle = s.now) then
       match t.phase with
       | .want b =>
         some { upd s i (fun t => { t with phase := .reading b }) with
@@ -223,13 +249,17 @@ def step? (s : State) : Obs → Option State
             { t with phase := if b ∧ t.kind = .init then .done else .sleeping (s.now + t.interval) })
         | _ => some s'
       else some s'
+  | .sa => if s.held < parallelReads then some { s with held := s.held + 1 } else none
+  | .sr => if s.inflight.length < s.held then some { s with held := s.held - 1 } else none
+  | .qb => some { s with qbusy := true }
+  | .qi => some { s with qbusy := false, lastIdle := s.now }
 
 def init (cfg : List (Kind × Nat)) : State :=
   { n := cfg.length, now := 0, connected := false, listening := false, started := false,
     trs := fun i => match cfg[i]? with
       | some (k, iv) => ⟨k, iv, false, .off⟩
       | none => ⟨.none, 0, false, .off⟩,
-    inflight := [] }
+    inflight := [], held := 0, qbusy := false, lastIdle := 0 }
 
 def accepts (cfg : List (Kind × Nat)) (tr : List Obs) : Bool :=
   (Monitor.run? step? (init cfg) tr).isSome
@@ -256,6 +286,10 @@ def parseObs (s : String) : Option Obs :=
   | ["A", t] => t.toNat?.map .adv
   | ["R", i] => i.toNat?.map .read
   | ["D", i] => i.toNat?.map .done
+  | ["SA"] => some .sa
+  | ["SR"] => some .sr
+  | ["QB"] => some .qb
+  | ["QI"] => some .qi
   | _ => none
 
 def parseInt (s : String) : Option Int :=
